@@ -43,6 +43,11 @@ type Cmd struct {
 	EchoStall bool `json:"echo_stall,omitempty"`
 	EchoKeep  int  `json:"echo_keep,omitempty"`
 	TimeoutMS int  `json:"timeout_ms,omitempty"`
+	// Cont: what the device prints instead of a prompt after an eager line (continuation prompt of a
+	// here-document / banner body); Group marks the lines of such a block: 1-3 eager lines and the
+	// plain terminator, whose text occurs in the first line.
+	Cont  string `json:"cont,omitempty"`
+	Group bool   `json:"group,omitempty"`
 }
 
 // Esc describes a privilege-escalation case.
@@ -103,6 +108,9 @@ type Desc struct {
 	Opts        []string `json:"opts,omitempty"`
 	InterimRe   string   `json:"interim_re,omitempty"`
 	InterimLine string   `json:"interim_line,omitempty"` // a line matching InterimRe, placed in some events' output
+	// HiddenTwin: the text of a hidden input that also occurs elsewhere in the dialogue (prompt host
+	// name, an output line, a visible input).
+	HiddenTwin string `json:"hidden_twin,omitempty"`
 	// Ops: kind "multi": several interactive operations (each with its own commands before/after) on
 	// ONE channel; the caller passes the same pattern slice to every operation with Complete != "".
 	Ops []Desc `json:"ops,omitempty"`
@@ -343,6 +351,28 @@ func multiLineInput(r *rand.Rand) string {
 	return strings.Join(ls, "\n") + "\n" + last
 }
 
+// genHereDoc draws a block that is pushed with eager sends and ended by a plain command: a first
+// line that names the terminator (cat > f << EOF, banner motd ^), 0-2 body lines, then the
+// terminator itself -- whose text therefore occurs in the echo of the first line.
+func genHereDoc(r *rand.Rand, prompt string) []Cmd {
+	t := []string{"EOF", "END", "EOT", "^", "!", "exit", "quit", "EOF2"}[r.Intn(8)]
+	cont := []string{"> ", "> ", "", "... "}[r.Intn(4)]
+	first := "x" + strings.TrimSpace(randStr(r, bodyAlpha, 3+r.Intn(20))) + []string{" << ", " ", " motd "}[r.Intn(3)] + t
+	cs := []Cmd{{Text: first, Eager: true, Cont: cont, Group: true}}
+	for i := r.Intn(3); i > 0; i-- {
+		l := "y" + strings.TrimSpace(randStr(r, bodyAlpha, 2+r.Intn(30)))
+		if r.Intn(3) == 0 {
+			l += " " + t + "."
+		}
+		cs = append(cs, Cmd{Text: l, Eager: true, Cont: cont, Group: true})
+	}
+	end := Cmd{Text: t, Out: genOut(r, 2), Group: true}
+	if strings.HasSuffix(prompt, " ") && r.Intn(2) == 0 {
+		end.Hold = 1
+	}
+	return append(cs, end)
+}
+
 func genCmd(r *rand.Rand, term byte, prompt string) Cmd {
 	c := Cmd{Text: genInput(r, term), Out: genOut(r, 3)}
 	if strings.HasSuffix(prompt, " ") && r.Intn(2) == 0 {
@@ -382,11 +412,12 @@ func (d *Desc) echoesUnambiguous(before string) bool {
 	base := d.Prompt + d.NL + d.Prompt
 	prev := before // what the preceding operation on the same channel left behind
 	cmdReaction := func(c Cmd) string {
-		s := c.Text + d.NL + lines(c.Out, d.NL)
-		if !c.Eager {
-			s += d.Prompt
+		if c.Eager {
+			// an eager send reads its own echo before the return; what it leaves unread is the
+			// device's answer to the return
+			return d.NL + lines(c.Out, d.NL) + c.Cont
 		}
-		return s
+		return c.Text + d.NL + lines(c.Out, d.NL) + d.Prompt
 	}
 	for _, c := range d.Warm {
 		if !echoUnambiguous(c.Text, norm(base+prev)) {
@@ -516,6 +547,37 @@ func genDialogueOnce(r *rand.Rand, plain bool, base *Desc, op int) Desc {
 	if d.Complete != "" && d.FinishAt >= 0 && d.Events[d.FinishAt].Resp != "" && r.Intn(3) == 0 {
 		d.FinishBoth = true
 	}
+	// a hidden input whose text also occurs elsewhere in the dialogue (user and password both
+	// "admin", the host name as password): the result still holds the whole dialogue, byte for byte
+	if n > 0 && r.Intn(3) == 0 {
+		var hid []int
+		for k := 0; k < d.Sent(); k++ {
+			if d.Events[k].Hidden {
+				hid = append(hid, k)
+			}
+		}
+		if len(hid) > 0 {
+			k := hid[r.Intn(len(hid))]
+			h := randStr(r, "abcdefghijklmnopqrstuvwxy0123456789", 3+r.Intn(6))
+			if len(d.Host) >= 3 && r.Intn(3) == 0 {
+				h = d.Host // occurs in every prompt
+			}
+			d.Events[k].Input = h
+			d.HiddenTwin = h
+			// ... in an output line
+			if j := r.Intn(d.Sent()); r.Intn(3) != 0 || h != d.Host {
+				e := &d.Events[j]
+				e.Out = append(e.Out, []string{"user " + h + " logged in", h, "last login: " + h + "@10.0.0.5 (" + h + ")"}[r.Intn(3)])
+			}
+			// ... and in a visible input
+			for j := 0; j < d.Sent(); j++ {
+				if e := &d.Events[j]; !e.Hidden && r.Intn(2) == 0 {
+					e.Input = h + " " + e.Input
+					break
+				}
+			}
+		}
+	}
 	// the last event waits for the prompt: earlier events that wait for a response of their own may
 	// see prompt-looking progress lines first (not a completion pattern of kind text, not their
 	// response: nothing to them)
@@ -595,7 +657,9 @@ func genDialogueOnce(r *rand.Rand, plain bool, base *Desc, op int) Desc {
 		for i := 0; i < np; i++ {
 			d.Post = append(d.Post, genCmd(r, term(), d.Prompt))
 		}
-		if base == nil && (r.Intn(4) == 0 || (plain && r.Intn(2) == 0)) {
+		if base == nil && r.Intn(6) == 0 {
+			d.Post = append(d.Post, genHereDoc(r, d.Prompt)...)
+		} else if base == nil && (r.Intn(4) == 0 || (plain && r.Intn(2) == 0)) {
 			c := genCmd(r, term(), d.Prompt)
 			c.Eager, c.Hold = true, 0
 			d.Post = append(d.Post, c)
@@ -643,7 +707,7 @@ func genDialogueOnce(r *rand.Rand, plain bool, base *Desc, op int) Desc {
 		// exact mode: some plain commands are multi-line inputs whose last line recurs earlier
 		for _, cs := range [][]Cmd{d.Warm, d.Post} {
 			for i := range cs {
-				if !cs[i].EchoStall && r.Intn(3) == 0 {
+				if !cs[i].EchoStall && !cs[i].Group && r.Intn(3) == 0 {
 					cs[i].Text = multiLineInput(r)
 				}
 			}
@@ -1139,7 +1203,7 @@ func GenShared(r *rand.Rand) Desc {
 		}
 		var post []Cmd
 		for _, c := range a.Post {
-			if !c.Eager && !c.EchoStall {
+			if !c.Eager && !c.EchoStall && !c.Group {
 				post = append(post, c)
 			}
 		}
